@@ -1,9 +1,18 @@
-"""C32 (read-only half) -- lint, parse and render never modify any input file.
+"""C32 -- linting is read-only and repeatable.
 
-Level F of DESIGN.md: frame/effect clauses discharged *syntactically* by pyvc.effects over the real AST of every
-module below <src>/sqlfluff (re-read from disk on every run; `--src DIR` honoured through sqlfluff.__file__).
-Nothing here is an SMT obligation; the runner consumes EXTRA (static clauses) and BOUNDED (dynamic cross-check).
-The repeatability half of C32 is NOT decided (see NOT_COVERED).
+READ-ONLY half (this file): level F of DESIGN.md -- frame/effect clauses discharged *syntactically* by pyvc.effects over the real
+AST of every module below <src>/sqlfluff (re-read from disk on every run; `--src DIR` honoured through sqlfluff.__file__), plus an
+audit-hook cross-check (BOUNDED dynamic_trace).
+
+REPEATABILITY half ("no state that outlives one lint may change what a later lint reports"), three parts, each labelled:
+  contracts/c32_state.py      pyvc contracts on the anchored mechanisms: Linter.allowed_rule_ref_map (FRAME: the reference map handed
+                              in is not modified -- two region contracts proved/refuted by pyvc, two native_only companions) and
+                              BlockTracker.enter / exit / top (what the class-level `_stack` / `_map` hold after each call)
+  contracts/c32_inventory.py  EXTRA syntactic obligations: the exact inventory of process-lifetime state (functools caches, caching
+                              decorators, cached_property, module-/class-level state written at run time, ContextVars, __dict__ stores,
+                              written mutable defaults) and an inter-procedural taint analysis "a shared object is never written"
+  contracts/c32_history.py    BOUNDED stand-in for the history property itself: random and directed histories of lint / parse / render
+                              operations in worker processes against one FRESH python process per operation
 """
 from __future__ import annotations
 
@@ -17,6 +26,9 @@ import time
 import traceback
 
 from pyvc import effects
+from . import c32_state as _state        # pyvc contracts of the repeatability half (registered on import)
+from . import c32_inventory as _inventory
+from . import c32_history as _history
 
 PROP = "C32"
 LEVEL = "other"
@@ -792,10 +804,22 @@ def _pick(samples):
     return (out + [s for s in samples if s not in out])[:5]
 
 
-EXTRA = [effects_check]
-BOUNDED = [dynamic_trace]
-NATIVE_TRIES = {"quick": 0, "thorough": 0}
-RULE = "see bounded_stand_ins[0].rule (dynamic cross-check); the decided part is the static effect clauses (obligations/discharged)"
+def state_inventory(tier, seed):
+    """EXTRA: inventory of process-lifetime state + shared values never written (contracts/c32_inventory.py)"""
+    _inventory._CACHE["ix"] = _index()          # one parse of the package for both analyses
+    return _inventory.state_inventory(tier, seed)
+
+
+def histories(tier, seed):
+    """BOUNDED: histories of operations vs one fresh process per operation (contracts/c32_history.py)"""
+    return _history.histories(tier, seed)
+
+
+EXTRA = [effects_check, state_inventory]
+BOUNDED = [dynamic_trace, histories]
+NATIVE_TRIES = {"quick": 300, "thorough": 5000}
+RULE = ("see bounded_stand_ins[*].rule: [0] dynamic write trace (cross-check of the read-only half), [1] histories vs one fresh process per "
+        "operation (stand-in for the repeatability half); the decided parts are the static effect / state clauses and the pyvc contracts")
 
 EXPLANATION = (
     "Decided here: the READ-ONLY half of C32, by a syntactic effect system (pyvc/effects.py) over the real AST of every module "
@@ -821,17 +845,42 @@ EXPLANATION = (
     "templaters, parser, rules and dialect modules is read-mode. A failed clause names the site (file:line) and the call chain "
     "from the entry point; there is no failing *input* for a static effect violation unless the dynamic cross-check also "
     "observes the write. The bounded stand-in runs the real entry points on a temp tree and strings under sys.addaudithook "
-    "and a directory snapshot: it is a cross-check of the analysis, not part of the decision. NOT decided: the repeatability "
-    "half of C32 (identical violations on repeated lints; caches, histories, class-level state).")
+    "and a directory snapshot: it is a cross-check of the analysis, not part of the decision.  REPEATABILITY half -- decided in "
+    "parts, none of which is a proof of the whole-history property: (1) pyvc contracts on the two anchored mechanisms.  "
+    "Linter.allowed_rule_ref_map: the FRAME the property needs (the reference map handed in -- the caller's RulePack map -- is not "
+    "modified, whatever disable_noqa_except says) as two region contracts over every statement but the final return-comprehension, with "
+    "local aliases of containers tracked by the engine (opts.track_aliases), plus two native_only (bounded) contracts: the same frame "
+    "on the real function, and `result == allowed_map(content at entry, disable_noqa_except)` against an independent implementation.  "
+    "BlockTracker.enter/exit/top (whole functions): exit undoes exactly one enter and leaves the memo alone; enter pushes the uuid of its "
+    "slice, never changes or removes a memo entry and adds at most its own; top reads only; (native_only, assuming uuid4 does not repeat) "
+    "enter keeps the memo injective.  (2) EXTRA obligations `C32/state/...` (syntactic, over the real AST): the inventory of every "
+    "syntactic form of process-lifetime state is EXACT against a declared table in which each entry says why it cannot change a later "
+    "lint; an undeclared item on the lint path is undecided-with-reason; `shared-values-never-written` follows every object that comes "
+    "out of a functools cache or an undeclared run-time-written module-/class-level container through assignments, returns, arguments, "
+    "constructor arguments and attributes and FAILS at a store / del / mutator call / self-writing method on it (call chain reported); "
+    "`block-uuid-opaque`: a block uuid is only passed on, tested, compared for equality or used as a key; the package's one caching "
+    "decorator returns a memo only under `== parse_context.uuid`.  (3) BOUNDED `C32-histories-vs-fresh-process`: see its rule.")
 
 NOT_COVERED = [
-    "repeatability half of C32: repeating a lint gives identical violations (histories, lru/cached_property caches, class-level BlockTracker/uuid state, dict-order dependence) is a whole-history property and is NOT decided",
-    "idempotence of Linter.allowed_rule_ref_map (DESIGN ties it to C20) is not part of this check",
+    "the whole-history property itself is only checked on the bounded pool of contracts/c32_history.py (histories of 2-8 operations over "
+    "22 strings and an 18-file tree, 6 configs); no proof that ARBITRARY histories give identical violations",
+    "instance attributes of long-lived objects (Linter, root FluffConfig, templater and dialect/grammar objects, RuleSet) written during "
+    "a lint are NOT inventoried syntactically -- only module-level, class-level, functools/cached_property/__dict__ state is; a leak "
+    "through such an attribute is only visible to the history stand-in (mutant linter_config_shared_instead_of_copied is caught there)",
+    "the taint analysis resolves calls and attributes by name (over-approximation) but stops at builtin-method names on receivers of "
+    "unknown class, at private containers of shared objects stored in attributes, and at third-party callees (listed as trusted)",
+    "the final statement of Linter.allowed_rule_ref_map (a dict comprehension) is outside the symbolic subset: covered by the two "
+    "native_only contracts only",
+    "dict/set iteration order and hash randomisation between processes: covered only as far as the reference processes (random hash "
+    "seeds) agree with the workers on the pool; violations are compared as sorted lists",
+    "the parallel runner (processes > 1) is not exercised by the histories (worker processes are forked per file; fork + tqdm lock hazard)",
+    "parse-tree printing shows the first 6 hex digits of block uuids (`[Block: 'ab12cd']`): `sqlfluff parse` output is therefore not "
+    "repeatable between processes; the property speaks of violations only",
     "writes performed inside third-party libraries (jinja2 bytecode cache, tqdm, click, pluggy entry-point loading, chardet, platformdirs) and inside out-of-tree plugins (dbt templater)",
     "user-supplied python executed by the jinja templater (library_path modules, macros calling python objects) and by the python templater's format context",
     "the fix/format commands (they write by design) and diff_quality_plugin (writes its own temp json)",
     "data-flow of path values: a declared writer being handed an input path (e.g. --write-output pointing at an input file) is the user's explicit request",
-    "memory-only mutation of inputs (strings, config objects) -- only file-system effects are tracked",
+    "memory-only mutation of input STRINGS is impossible (immutable); of config objects handed in by the caller: only as far as the histories observe it",
 ]
 ASSUMPTIONS = [
     "E1 no dynamic code on the lint path beyond the declared sites: exec/eval/compile/__import__/importlib.import_module/importlib.util are searched syntactically in every module; the 4 sites found (dialect import by name from a constant table, rule-module import from the in-tree rules directory, jinja library_path loading = user code) are listed in DYNAMIC_DECLARED and any new one fails the check; getattr(obj, <non-constant>)(...) and callables stored in containers are resolved only through the by-reference rule",
@@ -840,8 +889,16 @@ ASSUMPTIONS = [
     "E4 writing through an already-open handle is attributed to the site that opened it; handles are not smuggled in from outside the package (sys.stdout/stderr excepted)",
     "E5 methods inherited from a class outside the package are effect free unless named in the primitive list; `self.m(...)` with m undefined in the class family is such a method or an instance attribute charged where the callable was mentioned",
     "E6 dynamic cross-check: CPython audit events are raised for every builtin open/os.* write primitive (PEP 578); child processes of the parallel runner are only covered by the directory snapshot",
+    "R1 uuid.uuid4() never returns a value that is already in BlockTracker._map (122 random bits): needed for the injectivity of the block memo (BlockTracker.enter#c32-injective) and for the parse-context cache key",
+    "R2 config files and the files of the jinja library/macro paths do not change while a process runs (the loader caches are keyed by path; C27-1)",
+    "R3 state inventory: module-level and class-level state is written only through the syntactic forms listed in contracts/c32_inventory.py (store / del / mutator-named method / global re-binding / ContextVar.set / __dict__ / setattr with a non-constant name); writes through aliases of such objects held elsewhere, through C extensions, or through exec/eval (clause dynamic-code-sites-declared) are not seen",
+    "R4 history stand-in: a subprocess started for one operation is a fresh process; HOME and XDG_CONFIG_HOME point to an empty directory for reference and worker processes alike; PYTHONHASHSEED is left random",
 ]
-TRUSTED = ["CPython ast.parse / ast.unparse", "PEP 578 audit events (dynamic cross-check only)"]
+TRUSTED = ["CPython ast.parse / ast.unparse", "PEP 578 audit events (dynamic cross-check only)",
+           "pyvc engine, opt-in local alias tracking (opts.track_aliases): `name = name` of a list/set/dict value makes both names one object; "
+           "in-place updates reach every alias; used by the two allowed_rule_ref_map region contracts",
+           "region contracts of Linter.allowed_rule_ref_map: `reference_map` is a dict str -> set of str, `disable_noqa_except` an optional str",
+           "assumed contract fnmatch.filter (contracts/c32_state.py): it returns a new list of some of the names and does not touch its arguments"]
 
 # ------------------------------------------------------------------------------------------------ must-fail mutants
 _LR_OLD = """            raw_file = target_file.read()
@@ -889,4 +946,109 @@ MUTANTS = [
      "        dump_file_payload(write_output or paths[0] + \".lint.json\", file_output)\n\n    if persist_timing:"),
     ("linted_dir_add_touches_marker", "sqlfluff/core/linter/linted_dir.py", "    def add(self, file: LintedFile) -> None:\n",
      "    def add(self, file: LintedFile) -> None:\n        from pathlib import Path\n        Path(file.path + \".linted\").touch()\n"),
+    # ---- repeatability half: state that outlives one lint (each a single textual edit)
+    # (the shape of seeded change A) a functools cache hands every file of a directory the SAME, mutable, config object
+    ("child_config_lru_cached_per_directory", "sqlfluff/core/linter/linter.py",
+     """    @staticmethod
+    def load_raw_file_and_config(
+        fname: str, root_config: FluffConfig
+    ) -> tuple[str, FluffConfig, str]:
+        \"\"\"Load a raw file and the associated config.\"\"\"
+        file_config = root_config.make_child_from_path(fname)
+""",
+     """    from functools import lru_cache as _lru_cache
+
+    @staticmethod
+    @_lru_cache(maxsize=256)
+    def _child_config(root_config: FluffConfig, dirname: str) -> FluffConfig:
+        return root_config.make_child_from_path(dirname)
+
+    @staticmethod
+    def load_raw_file_and_config(
+        fname: str, root_config: FluffConfig
+    ) -> tuple[str, FluffConfig, str]:
+        \"\"\"Load a raw file and the associated config.\"\"\"
+        file_config = Linter._child_config(root_config, os.path.dirname(os.path.abspath(fname)))
+"""),
+    # (the shape of seeded change B) the rule reference map is memoised on the class and handed out by reference
+    ("reference_map_memoised_on_the_class", "sqlfluff/core/rules/base.py",
+     "    def rule_reference_map(self) -> dict[str, set[str]]:\n",
+     """    _ref_memo: dict = {}
+
+    def rule_reference_map(self) -> dict[str, set[str]]:
+        key = tuple(sorted(self._register))
+        if key not in self._ref_memo:
+            self._ref_memo[key] = self._rule_reference_map()
+        return self._ref_memo[key]
+
+    def _rule_reference_map(self) -> dict[str, set[str]]:
+"""),
+    ("block_stack_not_popped", "sqlfluff/core/parser/lexer.py", "        uuid = self._stack.pop()\n", "        uuid = self._stack[-1]\n"),
+    ("block_memo_overwritten_on_every_enter", "sqlfluff/core/parser/lexer.py", "        uuid = self._map.get(key, None)\n", "        uuid = None\n"),
+    ("dedupe_buffer_kept_for_the_whole_process", "sqlfluff/core/linter/linted_file.py",
+     "        new_violations = []\n        dedupe_buffer = set()\n",
+     """        new_violations = []
+        global _DEDUPE_BUFFER
+        try:
+            dedupe_buffer = _DEDUPE_BUFFER
+        except NameError:
+            dedupe_buffer = _DEDUPE_BUFFER = set()
+"""),
+    ("render_memoised_by_file_name", "sqlfluff/core/linter/linter.py",
+     """    def render_string(
+        self, in_str: str, fname: str, config: FluffConfig, encoding: str
+    ) -> RenderedFile:
+        \"\"\"Template the file.\"\"\"
+""",
+     """    _rendered: dict = {}
+
+    def render_string(self, in_str: str, fname: str, config: FluffConfig, encoding: str) -> RenderedFile:
+        \"\"\"Template the file (once per file name).\"\"\"
+        if fname not in self._rendered:
+            self._rendered[fname] = self._render_string(in_str, fname, config, encoding)
+        return self._rendered[fname]
+
+    def _render_string(
+        self, in_str: str, fname: str, config: FluffConfig, encoding: str
+    ) -> RenderedFile:
+        \"\"\"Template the file.\"\"\"
+"""),
+    ("linter_config_shared_instead_of_copied", "sqlfluff/core/linter/linter.py",
+     "        config = (config or self.config).copy()\n", "        config = config or self.config\n"),
+    ("allowed_map_expansion_pops_entries", "sqlfluff/core/linter/linter.py",
+     "                noqa_set |= output_map.get(x, set())\n", "                noqa_set |= output_map.pop(x, set())\n"),
+    ("allowed_map_expansion_empties_matched_entries", "sqlfluff/core/linter/linter.py",
+     "                noqa_set |= output_map.get(x, set())\n",
+     "                noqa_set |= output_map.get(x, set())\n                output_map[x] = set()\n"),
+    ("noqa_directives_in_a_mutable_default", "sqlfluff/core/rules/noqa.py",
+     """        reference_map: dict[str, set[str]],
+    ) -> tuple["IgnoreMask", list[SQLBaseError]]:
+        \"\"\"Look for inline ignore comments and return NoQaDirectives.\"\"\"
+        ignore_buff: list[NoQaDirective] = []
+""",
+     """        reference_map: dict[str, set[str]],
+        ignore_buff: list[NoQaDirective] = [],
+    ) -> tuple["IgnoreMask", list[SQLBaseError]]:
+        \"\"\"Look for inline ignore comments and return NoQaDirectives.\"\"\"
+"""),
+    ("templater_context_memoised_on_the_class", "sqlfluff/core/templaters/base.py",
+     """    def get_context(
+        self,
+        fname: Optional[str],
+        config: Optional[FluffConfig],
+    ) -> dict[str, Any]:
+""",
+     """    _ctx_memo: dict = {}
+
+    def get_context(self, fname: Optional[str], config: Optional[FluffConfig]) -> dict[str, Any]:
+        if self.name not in self._ctx_memo:
+            self._ctx_memo[self.name] = self._get_context(fname, config)
+        return self._ctx_memo[self.name]
+
+    def _get_context(
+        self,
+        fname: Optional[str],
+        config: Optional[FluffConfig],
+    ) -> dict[str, Any]:
+"""),
 ]
